@@ -1,4 +1,5 @@
-(* (T) for Model/Server.v: a weight that every internal rule strictly decreases. *)
+(* (T) for Model/Server.v: a weight that every internal rule strictly decreases - and (Proofs/ServerClosed.v) so does
+   the return of a handler from its body: a handler in its body (HGate) weighs more than one that has returned. *)
 From Coq Require Import List ZArith Bool Lia Arith.
 Import ListNotations.
 From Goat Require Import Model.Client Model.Server Proofs.ServerProofs Proofs.ServerInv.
@@ -6,16 +7,16 @@ Open Scope nat_scope.
 
 (* ---------- (T): a weight that every internal rule strictly decreases ---------- *)
 Definition w_rd (p : rdpc) : nat :=
-  match p with RdRead => 3 | RdOffer _ => 11 | RdFwd _ _ => 4 | RdRst _ => 5 | RdCws _ => 2 | RdWait _ _ => 1 | RdDead _ => 0 end.
+  match p with RdRead => 3 | RdOffer _ => 16 | RdFwd _ _ => 4 | RdRst _ => 5 | RdCws _ => 2 | RdWait _ _ => 1 | RdDead _ => 0 end.
 Definition w_wr (p : wrpc) : nat := match p with WrDead => 0 | WrSel => 1 | WrWrite _ => 2 end.
 Definition w_wk (p : wkpc) : nat := match p with WkDead => 0 | WkIdle => 1 | WkRun _ => 3 | WkHand _ => 3 end.
 Definition w_pc (p : hpc) : nat :=
-  match p with HDead => 0 | HUnreg => 4 | HGate => 5 | HInRecv => 6 | HInAwait => 6 | HInSend _ KTrl => 6 | HInSend _ _ => 7 end.
+  match p with HDead => 0 | HUnreg => 4 | HGate => 8 | HInRecv => 9 | HInAwait => 9 | HInSend _ KTrl => 6 | HInSend _ _ => 10 end.
 Definition w_h (k : hnd) : nat := w_pc (h_pc k) + (if h_donesig k then 2 else 0).
 Definition sum {A} (f : A -> nat) (l : list A) : nat := fold_right (fun x acc => f x + acc) 0 l.
 
 Definition measure (s : state) : nat :=
-  12 * length (inbox s) + w_rd (rd s) + w_wr (wr s) + sum w_wk (wk s) + sum w_h (hs s).
+  20 * length (inbox s) + w_rd (rd s) + w_wr (wr s) + sum w_wk (wk s) + sum w_h (hs s).
 
 Lemma sum_app {A} (f : A -> nat) l1 l2 : sum f (l1 ++ l2) = sum f l1 + sum f l2.
 Proof. induction l1 as [|a l IH]; simpl; [reflexivity | rewrite IH; lia]. Qed.
